@@ -124,6 +124,10 @@ struct WorkerReport {
     /// order-independent digest over (scenario index, event-log hash, #violations)
     #[serde(default)]
     run_digest: u64,
+    /// slowest scenario of this worker: (wall seconds, index) - reported so that the no-progress
+    /// limits can be compared with what scenarios really take
+    #[serde(default)]
+    slowest: (f64, u64),
 }
 
 fn big_stack<T: Send + 'static>(f: impl FnOnce() -> T + Send + 'static) -> T {
@@ -168,7 +172,12 @@ fn worker_main(
             }
             let _ = std::fs::rename(&tmp, &wal);
         }
+        let t_s = Instant::now();
         let out = run_guarded(check, &scenario, &mut rep.stats);
+        let el = t_s.elapsed().as_secs_f64();
+        if el > rep.slowest.0 {
+            rep.slowest = (el, i);
+        }
         rep.evaluations += 1;
         rep.run_digest = rep.run_digest.wrapping_add(crate::mix(crate::mix(i, out.log_hash), out.violations.len() as u64));
         if out.nontrivial {
@@ -231,11 +240,17 @@ fn eval_isolated_after(check: &dyn Check, scenario: &Value, history: Option<&His
         .spawn()
         .expect("spawn exec child");
     let t0 = Instant::now();
+    let mut last_probe = Instant::now();
     let status = loop {
         match child.try_wait().unwrap() {
             Some(s) => break Some(s),
             None => {
-                if t0.elapsed() > timeout {
+                let mut cpu_exceeded = false;
+                if last_probe.elapsed() > Duration::from_secs(1) {
+                    last_probe = Instant::now();
+                    cpu_exceeded = tree_cpu_seconds(child.id()).map_or(false, |c| c > cpu_limit_of(timeout));
+                }
+                if t0.elapsed() > timeout || cpu_exceeded {
                     let _ = child.kill();
                     let _ = child.wait();
                     break None;
@@ -253,7 +268,7 @@ fn eval_isolated_after(check: &dyn Check, scenario: &Value, history: Option<&His
             vec![Violation {
                 invariant: format!("{}.no-hang", check.id()),
                 signature: "hang".into(),
-                detail: format!("no result within {timeout:?}"),
+                detail: format!("no result within {timeout:?} of wall time or {:.0} s of CPU time", cpu_limit_of(timeout)),
                 narrowed: None,
             }],
             0,
@@ -473,6 +488,52 @@ fn apply_address_space_limit(check: &dyn Check) {
     }
 }
 
+/// CPU seconds (user + system, including reaped children) consumed so far by process `pid`
+/// and all its live descendants, from /proc. None where /proc is not available.
+fn tree_cpu_seconds(pid: u32) -> Option<f64> {
+    fn stat(pid: u32) -> Option<(u32, u64)> {
+        let text = std::fs::read_to_string(format!("/proc/{pid}/stat")).ok()?;
+        let rest = &text[text.rfind(')')? + 1..];
+        let f: Vec<&str> = rest.split_whitespace().collect();
+        // rest starts at field 3 (state): ppid = 4, utime = 14, stime = 15, cutime = 16, cstime = 17
+        let ppid: u32 = f.get(1)?.parse().ok()?;
+        let mut ticks = 0u64;
+        for k in 11..=14 {
+            ticks += f.get(k)?.parse::<i64>().ok()?.max(0) as u64;
+        }
+        Some((ppid, ticks))
+    }
+    let (_, own) = stat(pid)?;
+    let mut total = own;
+    // live descendants
+    let mut procs: Vec<(u32, u32, u64)> = Vec::new();
+    for e in std::fs::read_dir("/proc").ok()?.flatten() {
+        if let Some(p) = e.file_name().to_str().and_then(|n| n.parse::<u32>().ok()) {
+            if let Some((ppid, t)) = stat(p) {
+                procs.push((p, ppid, t));
+            }
+        }
+    }
+    let mut frontier = vec![pid];
+    while let Some(parent) = frontier.pop() {
+        for (p, ppid, t) in &procs {
+            if *ppid == parent && *p != pid {
+                total += t;
+                frontier.push(*p);
+            }
+        }
+    }
+    Some(total as f64 / 100.0) // USER_HZ is 100 on Linux
+}
+
+/// The CPU-time form of a no-progress limit: a busy loop is recognised after a quarter of the
+/// wall-clock limit in CPU seconds - CPU time does not grow faster on a loaded machine, so this
+/// criterion cannot turn load into an alarm, and it is several times what the slowest
+/// scenario of the tier consumes.
+fn cpu_limit_of(wall: Duration) -> f64 {
+    wall.as_secs_f64() / 4.0
+}
+
 fn wal_index(path: &Path) -> Option<u64> {
     use std::io::Read;
     let mut head = [0u8; 64];
@@ -535,7 +596,7 @@ fn supervise(check: &'static dyn Check, tier: Tier) -> i32 {
             .stderr(Stdio::inherit())
             .spawn()
             .expect("spawn worker");
-        children.push((shard, child, Instant::now(), 0u64 /*last wal index*/));
+        children.push((shard, child, Instant::now(), 0u64 /*last wal index*/, 0f64 /*cpu at last progress*/, Instant::now() /*last cpu probe*/));
     }
     // watchdog loop
     let watchdog = Duration::from_secs(
@@ -545,7 +606,7 @@ fn supervise(check: &'static dyn Check, tier: Tier) -> i32 {
     let mut done = vec![false; workers as usize];
     loop {
         let mut all = true;
-        for (shard, child, last_change, last_idx) in children.iter_mut() {
+        for (shard, child, last_change, last_idx, cpu_at_progress, last_probe) in children.iter_mut() {
             if done[*shard as usize] {
                 continue;
             }
@@ -564,17 +625,27 @@ fn supervise(check: &'static dyn Check, tier: Tier) -> i32 {
                     // only the head of the write-ahead file is looked at here (a scale scenario is
                     // megabytes of JSON): it starts with {"index":<n>,
                     let idx = wal_index(&dir.join(format!("wal-{shard}.json"))).unwrap_or(u64::MAX);
+                    let mut cpu_spent = 0.0;
+                    if idx != *last_idx || last_probe.elapsed() > Duration::from_secs(1) {
+                        *last_probe = Instant::now();
+                        let now = tree_cpu_seconds(child.id());
+                        if idx != *last_idx {
+                            *cpu_at_progress = now.unwrap_or(0.0);
+                        } else if let Some(c) = now {
+                            cpu_spent = c - *cpu_at_progress;
+                        }
+                    }
                     if idx != *last_idx {
                         *last_idx = idx;
                         *last_change = Instant::now();
-                    } else if last_change.elapsed() > watchdog {
+                    } else if last_change.elapsed() > watchdog || cpu_spent > cpu_limit_of(watchdog) {
                         let wal = std::fs::read(dir.join(format!("wal-{shard}.json")))
                             .ok()
                             .and_then(|b| serde_json::from_slice::<Value>(&b).ok());
                         let _ = child.kill();
                         let _ = child.wait();
                         done[*shard as usize] = true;
-                        dead.push((*shard, wal, format!("watchdog: no progress for {watchdog:?}")));
+                        dead.push((*shard, wal, format!("watchdog: no progress for {:?} of wall time / {:.0} s of CPU time (limits {watchdog:?} / {:.0} s)", last_change.elapsed(), cpu_spent, cpu_limit_of(watchdog))));
                     }
                 }
             }
@@ -593,6 +664,7 @@ fn supervise(check: &'static dyn Check, tier: Tier) -> i32 {
     let mut samples: Vec<(u64, Value)> = Vec::new();
     let mut viols: Vec<(u64, Value, Violation, u64, bool)> = Vec::new();
     let mut run_digest = 0u64;
+    let mut slowest = (0f64, 0u64);
     for shard in 0..workers {
         let p = dir.join(format!("report-{shard}.json"));
         if let Ok(b) = std::fs::read(&p) {
@@ -600,6 +672,9 @@ fn supervise(check: &'static dyn Check, tier: Tier) -> i32 {
                 Ok(r) => {
                     stats.merge(&r.stats);
                     run_digest = run_digest.wrapping_add(r.run_digest);
+                    if r.slowest.0 > slowest.0 {
+                        slowest = r.slowest;
+                    }
                     evaluations += r.evaluations;
                     nontrivial += r.nontrivial;
                     distinct.extend(r.distinct);
@@ -767,6 +842,7 @@ fn supervise(check: &'static dyn Check, tier: Tier) -> i32 {
     coverage.insert("schedules_distinct".into(), json!(stats.schedules.len()));
     coverage.insert("components".into(), check.components());
     coverage.insert("workers".into(), json!(workers));
+    coverage.insert("slowest_scenario".into(), json!({"wall_s": (slowest.0 * 10.0).round() / 10.0, "index": slowest.1, "no_progress_limit_wall_s": watchdog.as_secs(), "no_progress_limit_cpu_s": cpu_limit_of(watchdog)}));
     coverage.insert("run_digest".into(), json!(format!("{run_digest:016x}")));
     coverage.insert("violation_classes".into(), json!(classes.len()));
     coverage.insert("known_findings_hit".into(), json!(known_lines.len()));
